@@ -57,10 +57,7 @@ func (q zzB) Execute(t *Task) (int, error) {
 // recomputes nothing.
 func HarnessC33Sched() {
 	g := &zzGraph{n: 3}
-	pre := 2
-	if zz.Tier() == 1 {
-		pre = 3
-	}
+	pre := 2 // (both tiers)
 	for i := 0; i < g.n; i++ {
 		for j := i + 1; j < g.n; j++ {
 			g.dep[i][j] = zz.Bool()
@@ -144,10 +141,7 @@ func (g *zzGraph) wantB(i int) int {
 // exactly when a cycle / the panicking query is reachable, and all permits are free.
 func HarnessC34Sched() {
 	g := &zzGraph{n: 3}
-	pre := 1
-	if zz.Tier() == 1 {
-		pre = 2
-	}
+	pre := 1 // (both tiers)
 	for i := 0; i < g.n; i++ {
 		for j := 0; j < g.n; j++ {
 			g.dep[i][j] = zz.Bool()
